@@ -134,7 +134,9 @@ def main():
     # the same accessor called with different KEYWORD arguments on one runner, in both orders, against fresh runners
     from sqllineage.runner import LineageRunner as _LR
 
-    for sql, meta in SCRIPTS[:6]:
+    # a derived table that exposes a column nobody reads outside: a path that ENDS in a sub-query (visible only with the flag off)
+    SUBQ = [("insert into tgt select s.a from (select a, b from src) s", None), ("insert into tgt with c as (select a, b from src) select c.a from c", None)]
+    for sql, meta in SCRIPTS[:6] + SUBQ:
         def fresh():
             return _LR(sql)
 
@@ -143,14 +145,16 @@ def main():
             "cdag": len(fresh().to_cytoscape(level="column")),
             "cols": [[str(c) for c in p] for p in fresh().get_column_lineage()],
             "cols_nosub": [[str(c) for c in p] for p in fresh().get_column_lineage(exclude_subquery_columns=True)],
+            "cols_all_ends": [[str(c) for c in p] for p in fresh().get_column_lineage(exclude_path_ending_in_subquery=False)],
         }
         calls = {
             "dag": lambda r: len(r.to_cytoscape()),
             "cdag": lambda r: len(r.to_cytoscape(level="column")),
             "cols": lambda r: [[str(c) for c in p] for p in r.get_column_lineage()],
             "cols_nosub": lambda r: [[str(c) for c in p] for p in r.get_column_lineage(exclude_subquery_columns=True)],
+            "cols_all_ends": lambda r: [[str(c) for c in p] for p in r.get_column_lineage(exclude_path_ending_in_subquery=False)],
         }
-        for order in (("dag", "cdag", "dag"), ("cdag", "dag"), ("cols", "cols_nosub", "cols"), ("cols_nosub", "cols")):
+        for order in (("dag", "cdag", "dag"), ("cdag", "dag"), ("cols", "cols_nosub", "cols"), ("cols_nosub", "cols"), ("cols_all_ends", "cols", "cols_all_ends"), ("cols", "cols_all_ends", "cols"), ("cols_all_ends", "cols_nosub", "cols")):
             evals += 1
             r = fresh()
             for n in order:
